@@ -30,7 +30,7 @@ ASSUMPTIONS = ["streams start at a frame boundary and end with a sentinel frame,
                "by a frame start", "end-to-end sessions whose bytes were not all delivered before the receive timeout are "
                "counted as inconclusive sessions, never as violations"]
 REQUIRED = ["beast_single", "beast_double", "beast_random", "beast_cut_inside_escape", "beast_cut_after_frame_start",
-            "beast_rssi", "raw_single", "raw_double", "sky_single", "sky_double", "netsource", "e2e_sessions"]
+            "beast_rssi", "raw_single", "raw_double", "sky_single", "sky_double", "netsource", "netsource_commb_backlog_over_1000", "e2e_sessions"]
 # e2e_midframe_boundary (a recv() boundary inside a frame was actually observed) is reported in the evidence but not
 # required: TCP may coalesce pieces on a loaded machine and that must not turn the verdict inconclusive
 
@@ -225,6 +225,10 @@ def m_netsource(ctx, case):
                 ctx.violation("netsource-malformed-batch", sent=repr(d)[:200])
                 return
     ctx.hit("netsource")
+    if case.get("flood"):
+        ctx.hit("netsource_commb_backlog_over_1000")
+        if src.local_buffer_commb_msg or len(sent_c) != len(acc_c):
+            ctx.violation("netsource-conservation-broken", accepted=[len(acc_a), len(acc_c)], sent=[len(sent_a), len(sent_c)], note="after the final hand-over")
     ctx.nontrivial(("ns", repr(case["batches"])[:2000]))
 
 
@@ -536,6 +540,26 @@ def cases(ctx):
                 b.append([m, t])
             batches.append(b)
         yield "netsource", {"batches": batches}
+    # a feed with (almost) no ADS-B for a long time: thousands of Comm-B replies pile up before the next hand-over and
+    # every one of them still has to reach the decoder
+    for k in range(ctx.share(16 if quick else 200)):
+        batches, t = [], 1000.0
+        total = rng.choice((1100, 1500, 2500, 4000))
+        early_adsb = rng.random() < 0.5
+        n_done = 0
+        while n_done < total:
+            b = []
+            for _ in range(min(rng.choice((1, 7, 60, 250, 900)), total - n_done)):
+                x = bits.with_pi((rng.choice((20, 21)) << 83) | rng.fill(83), 112, rng.fill(24))
+                t += rng.uniform(0, 0.01)
+                b.append(["%028X" % x, t])
+                n_done += 1
+            if early_adsb and not batches:
+                x, n_ = rand_msg(rng, True)
+                b.insert(rng.randrange(len(b) + 1), ["%028X" % bits.es_frame(17, 5, rng.fill(24), rng.fill(56)), t])
+            batches.append(b)
+        batches.append([["%028X" % bits.es_frame(17, 5, rng.fill(24), rng.fill(56)), t + 1], ["%028X" % bits.es_frame(18, 0, rng.fill(24), rng.fill(56)), t + 2]])
+        yield "netsource", {"batches": batches, "flood": total}
     # end-to-end sessions
     for k in range(ctx.share(12 if quick else 400)):
         fmt, mk = (("beast", beast_specs), ("raw", raw_specs), ("sky", sky_specs))[(k + ctx.shard) % 3]
